@@ -60,6 +60,14 @@ def parseCfg (ws : List String) : Option Cfg := do
   let qs ← parseQuotas ws #[]
   let order ← (kv ws "order").bind (parseOrder · qs.length)
   if qs.isEmpty then none
+  -- `mod=<k>`: a processor that only rewrites the request (TransformAPICall → ModifyRequestAction) after the first `k`
+  -- limiters of the admitted path.  It is not an answer: the transaction goes on to the provider, no quota is touched —
+  -- the model has nothing to do for it, whatever its position.
+  match kv ws "mod" with
+  | some m => match m.toNat? with
+    | some k => if k > order.length then none
+    | none => none
+  | none => pure ()
   let cfg : Cfg := ⟨qs, order, early != 0, t0, gcInterval (gc.getD 0)⟩
   -- `wf` configurations are the theorems' scope; mixed trees run on the extension model only
   if cfg.wf || Mixed.okCfg cfg then pure cfg else none
@@ -118,6 +126,13 @@ def runStep (st : RunSt) (line : String) : RunSt × String :=
     match kvNat ws "max", kvNat ws "workers", kvNat ws "rounds" with
     | some m, some w, some r =>
       if 1 ≤ m && m ≤ 16 && 2 ≤ w && w ≤ 64 && 1 ≤ r && r ≤ 100000 then (st, "ok") else (st, "bad-op")
+    | _, _, _ => (st, "bad-op")
+  | "stress-realclock" :: ws =>
+    -- a full engine on the production clock; the statements behind it: `gc_removes_only_expired` (a collector pass leaves
+    -- every member whose expiry has not passed) and `released_by_gc_after_expiry`
+    match kvNat ws "max", kvNat ws "exp", kvNat ws "gc" with
+    | some m, some e, some g =>
+      if 1 ≤ m && m ≤ 16 && 1 ≤ e && e ≤ 10 && 1 ≤ g && g ≤ 10 then (st, "ok") else (st, "bad-op")
     | _, _, _ => (st, "bad-op")
   | "stress-churn" :: ws =>
     match kvNat ws "max", kvNat ws "workers", kvNat ws "txns" with
@@ -188,6 +203,8 @@ def judgeStep (s : JudgeSt) (op out : String) : JudgeSt :=
     if out == "ok" then s else { s with verdict := some ("fail - concurrent-Inc-Dec-of-one-request-id:" ++ pctEnc out) }
   | "stress-arrive" :: _ =>
     if out == "ok" then s else { s with verdict := some ("fail - simultaneous-arrivals-exceed-max:" ++ pctEnc out) }
+  | "stress-realclock" :: _ =>
+    if out == "ok" then s else { s with verdict := some ("fail - production-clock-collector-freed-a-live-slot-or-kept-an-expired-one:" ++ pctEnc out) }
   | "stress-churn" :: _ =>
     if out == "ok" then s else { s with verdict := some ("fail - churn-bound-or-release-broken:" ++ pctEnc out) }
   | "cfg" :: ws =>
